@@ -750,15 +750,23 @@ func (in *inst) roundTrip(lst, src string, w []byte, wait time.Duration, hdr map
 			// the request written by hand: header names in lower or upper case (what h2-to-h1 gateways and some
 			// clients send; header names are case-insensitive)
 			nm := func(s string) string {
-				if hc == "lower" {
+				switch hc {
+				case "lower":
 					return strings.ToLower(s)
+				case "upper":
+					return strings.ToUpper(s)
 				}
-				return strings.ToUpper(s)
+				return s
 			}
 			var req string
 			if hdr["method"] == "GET" {
 				req = fmt.Sprintf("GET /dns-query?dns=%s HTTP/1.1\r\n%s: %s\r\n%s: application/dns-message\r\n\r\n",
 					base64.RawURLEncoding.EncodeToString(w), nm("Host"), addr, nm("Accept"))
+			} else if hdr["chunked"] != "" {
+				// a body of unknown length: two chunks
+				k := len(w) / 2
+				req = fmt.Sprintf("POST /dns-query HTTP/1.1\r\n%s: %s\r\n%s: application/dns-message\r\n%s: chunked\r\n\r\n%x\r\n%s\r\n%x\r\n%s\r\n0\r\n\r\n",
+					nm("Host"), addr, nm("Content-Type"), nm("Transfer-Encoding"), k, w[:k], len(w)-k, w[k:])
 			} else {
 				req = fmt.Sprintf("POST /dns-query HTTP/1.1\r\n%s: %s\r\n%s: application/dns-message\r\n%s: %d\r\n\r\n%s",
 					nm("Host"), addr, nm("Content-Type"), nm("Content-Length"), len(w), w)
@@ -801,7 +809,7 @@ func (in *inst) roundTrip(lst, src string, w []byte, wait time.Duration, hdr map
 			req.Header.Set("Content-Type", "application/dns-message")
 		}
 		for k, v := range hdr {
-			if k != "method" && k != "keep" && k != "hdrcase" {
+			if k != "method" && k != "keep" && k != "hdrcase" && k != "chunked" {
 				req.Header.Set(k, v)
 			}
 		}
